@@ -310,7 +310,17 @@ class World:
         if a == "cov_func":
             return repr(v) == repr(r) and str(v) == str(r)
         if a.endswith("_func"):
-            return np.array_equal(np.asarray(v(self.Q)), np.asarray(r(self.Q)))
+            # "the same predictor": same class, same predictions, same normalisation count and feature count
+            # (n_obs enters predict(.., normalize=True) and the serialised form)
+            if not np.array_equal(np.asarray(v(self.Q)), np.asarray(r(self.Q))):
+                return False
+            if type(v) is not type(r):
+                return False
+            for meta in ("n_obs", "n_input_features"):
+                mv, mr = getattr(v, meta, None), getattr(r, meta, None)
+                if (mv is None) != (mr is None) or (mv is not None and float(mv) != float(mr)):
+                    return False
+            return True
         try:
             va, ra = np.asarray(v), np.asarray(r)
             if va.ndim == 0 and ra.ndim == 0:
